@@ -824,6 +824,9 @@ func (c *evalCtx) call(x *ast.CallExpr) *sv {
 	case "asfloat":
 		need(1)
 		return &sv{sort: "f64", ty: types.Typ[types.Float64], terms: []string{"(ifp " + c.rv1(c.eval(args[0])) + ")"}}
+	case "asbytes":
+		need(1)
+		return &sv{sort: "slice", ty: types.NewSlice(types.Typ[types.Uint8]), terms: []string{"(islice " + c.rv1(c.eval(args[0])) + ")"}}
 	case "asptr":
 		// asptr(v, "T"): payload of an interface value as *T
 		v := c.rv1(c.eval(args[0]))
